@@ -99,7 +99,13 @@ class Extract:
                 f"del {m}.graph.input[:]",
                 f"{m}.graph.input.extend(ordered)"]
         got = [_u(x) for x in body if not (isinstance(x, ast.Expr) and isinstance(x.value, ast.Constant))]
-        return got == want or got == want + [f"onnx.checker.check_model({m})"]
+        # (since the second drop-order fix) the default values of the surviving inputs are put in the same order
+        inits = [f"position = {{info.name: i for i, info in enumerate(ordered)}}",
+                 f"defaults = sorted({m}.graph.initializer, key=lambda init: position.get(init.name, len(position)))",
+                 f"del {m}.graph.initializer[:]",
+                 f"{m}.graph.initializer.extend(defaults)"]
+        check = [f"onnx.checker.check_model({m})"]
+        return got in (want, want + check, want + inits, want + inits + check)
 
     def stmt(self, s):
         if isinstance(s, ast.If) and not s.orelse:
